@@ -137,20 +137,20 @@ theorem c10_new (w : World) (k : WKind) :
 
 /-- Filling a table commutes with wrapping it: `X.Wrap` (hence `X.New`) only appends to the
     table's render-time cell-callback list, which no content-building step reads. -/
-theorem c10_build_commutes (dw : Measure) (k : WKind) (t : Nat) (ops : List BuildOp)
+theorem c10_build_commutes (dw : Measure) (k : WKind) (t : Nat) (ops : List ContentOp)
     (hops : ∀ op ∈ ops, op.okFor t) (w : World) :
-    ops.foldl (BuildOp.run dw) (w.wrapEffect k t) = (ops.foldl (BuildOp.run dw) w).wrapEffect k t :=
+    ops.foldl (ContentOp.run dw) (w.wrapEffect k t) = (ops.foldl (ContentOp.run dw) w).wrapEffect k t :=
   wrapEffect_buildOps dw k t ops hops w
 
 /-- Creation paths: a table made by sub-package `k`'s `New()` and then filled by `ops` renders
     (package-level function / fresh wrapper of `wr.kind`) exactly as the table made by
     `tabular.New()` and filled by the same `ops`. -/
-theorem c10_creation_paths (x : Ext) (w : World) (k : WKind) (ops : List BuildOp) (wr : Wrapper)
+theorem c10_creation_paths (x : Ext) (w : World) (k : WKind) (ops : List ContentOp) (wr : Wrapper)
     (hc : wr.core = w.newTable.2) (hops : ∀ op ∈ ops, op.okFor wr.core)
-    (hL : LogOnly (ops.foldl (BuildOp.run x.dw) w.newTable.1) wr.core)
-    (ht : wr.core < (ops.foldl (BuildOp.run x.dw) w.newTable.1).tables.length) :
-    (renderTo x ((ops.foldl (BuildOp.run x.dw) (w.newVia k).1).wrapEffect wr.kind wr.core) wr).2 =
-      (renderTo x ((ops.foldl (BuildOp.run x.dw) w.newTable.1).wrapEffect wr.kind wr.core) wr).2 := by
+    (hL : LogOnly (ops.foldl (ContentOp.run x.dw) w.newTable.1) wr.core)
+    (ht : wr.core < (ops.foldl (ContentOp.run x.dw) w.newTable.1).tables.length) :
+    (renderTo x ((ops.foldl (ContentOp.run x.dw) (w.newVia k).1).wrapEffect wr.kind wr.core) wr).2 =
+      (renderTo x ((ops.foldl (ContentOp.run x.dw) w.newTable.1).wrapEffect wr.kind wr.core) wr).2 := by
   have h1 : (w.newVia k).1 = w.newTable.1.wrapEffect k wr.core := by rw [hc]; rfl
   rw [h1, wrapEffect_buildOps x.dw k wr.core ops hops]
   exact c10_created_by x _ [k] wr hL ht
@@ -184,16 +184,16 @@ example : LogOnly (((c10World.wrapEffect .text 0).wrapEffect .csv 0).wrapEffect 
 example : (c10World.wrapEffect .text 0).bare = c10World.bare ∧ LogOnly (c10World.wrapEffect .text 0) 0 :=
   ⟨bare_wrapEffect _ _ _, by decide⟩
 /-- hypotheses of `c10_build_commutes` / `c10_creation_paths`: the same table as a list of steps -/
-def c10Ops : List BuildOp := [.addHeaders 0 [0, 1], .addRowItems 0 [2, 3], .addSeparator 0, .addRowItems 0 [4, 5]]
+def c10Ops : List ContentOp := [.addHeaders 0 [0, 1], .addRowItems 0 [2, 3], .addSeparator 0, .addRowItems 0 [4, 5]]
 def c10Empty : World := { items := [c10Item 97, c10Item 98, c10Item 99, c10Item 100, c10Item 101, c10Item 102] }
-example : c10Ops.foldl (BuildOp.run List.length) c10Empty.newTable.1 = c10World := rfl
+example : c10Ops.foldl (ContentOp.run List.length) c10Empty.newTable.1 = c10World := rfl
 example : ∀ op ∈ c10Ops, op.okFor 0 := by
   intro op hop
   simp only [c10Ops, List.mem_cons, List.mem_nil_iff, or_false] at hop
   rcases hop with h | h | h | h <;> subst h <;> trivial
 example : c10Text.core = c10Empty.newTable.2 ∧
-    LogOnly (c10Ops.foldl (BuildOp.run List.length) c10Empty.newTable.1) c10Text.core ∧
-    c10Text.core < (c10Ops.foldl (BuildOp.run List.length) c10Empty.newTable.1).tables.length := by decide
+    LogOnly (c10Ops.foldl (ContentOp.run List.length) c10Empty.newTable.1) c10Text.core ∧
+    c10Text.core < (c10Ops.foldl (ContentOp.run List.length) c10Empty.newTable.1).tables.length := by decide
 /-- … and `Needs` is a real hypothesis: the bare core table does not have it -/
 example : ¬ Needs c10World c10Text := by decide
 
